@@ -58,6 +58,19 @@ func setupC17(env *engine.Env) error {
 	if err != nil {
 		return err
 	}
+	// -o spelled as a bare file name, ./name and sub/dir/name relative to the working directory
+	over0 := map[string][]byte{}
+	for name, arg := range map[string]string{"bare-name": "bare.json", "dot-slash": "./dot.json", "nested-new-dir": "new/sub/dir/nested.json"} {
+		wd := filepath.Join(env.Scratch, "schema-out", "cwd-"+name)
+		os.MkdirAll(wd, 0o755)
+		cmd := exec.Command(bin, "jsonschema", "-o", arg)
+		cmd.Dir = wd
+		if b, err := cmd.CombinedOutput(); err != nil {
+			over0[name] = []byte(fmt.Sprintf("command failed: %v: %s", err, b))
+			continue
+		}
+		over0[name], _ = os.ReadFile(filepath.Join(wd, arg))
+	}
 	// the same command again over files that already exist at the -o path (a longer one, a shorter one)
 	over := map[string][]byte{}
 	for name, old := range map[string][]byte{"longer": append(append([]byte{}, raw...), bytes.Repeat([]byte("\n\"x-removed\": true}"), 40)...), "shorter": []byte("{}\n")} {
@@ -69,6 +82,9 @@ func setupC17(env *engine.Env) error {
 			return fmt.Errorf("nfpm jsonschema -o (existing file): %v: %s", err, b)
 		}
 		over[name], _ = os.ReadFile(p)
+	}
+	for k, v := range over0 {
+		over[k] = v
 	}
 	so, err := exec.Command(bin, "jsonschema").Output()
 	if err != nil {
@@ -745,7 +761,7 @@ func checkC17(env *engine.Env, ci any) engine.Outcome {
 		}
 		for name, b := range sc.over {
 			if !bytes.Equal(b, sc.raw) {
-				viol("schema:o-over-existing-file:"+name, "`nfpm jsonschema -o FILE` over an existing %s file leaves %d bytes, a fresh path gets %d bytes (first difference at byte %d)", name, len(b), len(sc.raw), firstDiff(b, sc.raw))
+				viol("schema:o-file:"+name, "`nfpm jsonschema -o FILE` (%s) leaves %d bytes (%q...), an absolute fresh path gets %d bytes (first difference at byte %d)", name, len(b), trunc(string(b), 80), len(sc.raw), firstDiff(b, sc.raw))
 			}
 		}
 		if strings.TrimSpace(string(sc.stdout)) != strings.TrimSpace(string(sc.raw)) {
